@@ -958,11 +958,12 @@ func ExtractMeasuredDataCSV(scannerObserv *bufio.Scanner, g *GlobalVarsMain, Fid
 	tokens := Explode(headline, []rune{',', ';'})
 	headers := make(map[MeasurementHeader]int)
 
-	for kHeader, vHeader := range measurementHeaderNames {
-		for i, token := range tokens {
-			if token == kHeader {
+	// walk the columns in file order (not the name table in map order): old and new spellings
+	// name the same quantity, the first column that carries one of them is used
+	for i, token := range tokens {
+		if vHeader, ok := measurementHeaderNames[token]; ok {
+			if _, exists := headers[vHeader]; !exists {
 				headers[vHeader] = i
-				break
 			}
 		}
 	}
